@@ -13,6 +13,8 @@ CONSTANTS
   FIX_NotifyAfterCommit = FALSE
   DEV_HeadsOutsideTx = FALSE
   DEV_SpaceTwoTx = FALSE
+  DEV_AclBatchOneTx = FALSE
+  DEV_SplitBatch = 0
   GEN = TRUE
 INVARIANT Emit
 VIEW genview
